@@ -87,6 +87,22 @@ class odict(dict):
         for key in self._keys:
             yield key
 
+    def __reversed__(self):
+        """ reversed(x): the inherited dict.__reversed__ (python >= 3.8) follows the order
+        of the underlying dict which insert() and reorder() do not keep in step with _keys """
+        return reversed(self._keys)
+
+    def __or__(self, other):
+        """ x | other: the inherited dict.__or__ (python >= 3.9) returns a plain dict """
+        new = self.copy()
+        new.update(other)
+        return new
+
+    def __ior__(self, other):
+        """ x |= other: the inherited dict.__ior__ (python >= 3.9) bypasses _keys """
+        self.update(other)
+        return self
+
     def __repr__(self):
         """
         odict representation
